@@ -207,6 +207,7 @@ def _resolvable(a):
         a["ir"]["density"] = 100
         a["ir"].pop("lonely_min", None)     # shapes for C15/C16 only: with them some requests have no stored key at all
         a["ir"].pop("auto_temps", None)
+        a["ir"].pop("d1_only_prefixed", None)
         if a["ir"]["lens"] not in ("short", "mixed"):
             a["ir"]["lens"] = "short"
     return a
